@@ -29,10 +29,10 @@ import (
 func TestMain(m *testing.M) { evid.Main("C13", m) }
 
 type Case struct {
-	Op     string `json:"op"`     // commit | commit-first | merge | prune
-	Rows   int    `json:"rows"`   // size of the base table
-	Edit   int    `json:"edit"`   // row edited by the operation's data
-	Subproc bool  `json:"subproc"` // kill a real wrgl subprocess instead of failing writes in-process
+	Op      string `json:"op"`      // commit | commit-first | merge | prune
+	Rows    int    `json:"rows"`    // size of the base table
+	Edit    int    `json:"edit"`    // row edited by the operation's data
+	Subproc bool   `json:"subproc"` // kill a real wrgl subprocess instead of failing writes in-process
 }
 
 var sub = evid.Register("crash", run)
@@ -268,8 +268,7 @@ func run(c Case) (o evid.Outcome, err error) {
 	if c.Subproc {
 		o.Class("subprocess-kill")
 	}
-	evid.Note("crash points executed: %s", c.Op)
-	_ = points
+	evid.Count("crash points executed ("+c.Op+")", points)
 	return o, nil
 }
 
@@ -388,6 +387,7 @@ func runRecv(c RecvCase) (o evid.Outcome, err error) {
 			return o, fmt.Errorf("receive interrupted at write %d then repeated: object set differs from an uninterrupted receive (%d vs %d keys)", n, dst.Len(), full.Len())
 		}
 	}
+	evid.Count("crash points executed (receive)", total)
 	o.NonTrivial = total >= 4
 	o.Class("writes=%s", bucket(total))
 	o.Class("packfiles=%d", len(packs))
